@@ -25,11 +25,23 @@ class Undecided(Exception):
     """Infrastructure problem (lost anchor, unsupported construct, timeout): exit 2, never a violation."""
 
 
-def run(cmd, cwd=None, timeout=None, env=None):
+def _limit_memory():
+    # per-process address-space cap (inherited by cbmc / z3 children): a runaway solver must end as
+    # "undecided", not take the machine down (no swap here)
+    import resource
+    cap = int(os.environ.get("VERIF_MEM_GB", "24")) * (1 << 30)
+    try:
+        resource.setrlimit(resource.RLIMIT_AS, (cap, cap))
+    except (ValueError, OSError):
+        pass
+
+
+def run(cmd, cwd=None, timeout=None, env=None, limit_mem=False):
     t0 = time.time()
     try:
         p = subprocess.run(cmd, cwd=cwd, env=env or OFFLINE_ENV, stdout=subprocess.PIPE,
-                           stderr=subprocess.PIPE, timeout=timeout, text=True, errors="replace")
+                           stderr=subprocess.PIPE, timeout=timeout, text=True, errors="replace",
+                           preexec_fn=_limit_memory if limit_mem else None)
         return p.returncode, p.stdout, p.stderr, time.time() - t0
     except subprocess.TimeoutExpired as e:
         out = e.stdout.decode(errors="replace") if isinstance(e.stdout, bytes) else (e.stdout or "")
